@@ -27,16 +27,32 @@ def check_instance(inst, F, ctx, extra):
         ctx.sample({'instance': inst.describe()[:300], 'kind': inst.rec['kind'], 'items_validated_against_mode_free_spec': sorted(inst.feats)})
 
 import re
-_HELPER = re.compile(r'\b__(as_str|from_str|into|MAX|MIN|next|next_back|try_from|iter|names|range)\b')
+_TOK = re.compile(r'"(?:[^"\\]|\\.)*"|\w+|\S')
 
-def _norm(tokens):
-    # a co-enabled feature may turn a private helper (`__MIN`) into the user-visible item (`MIN`): the cross-reference
-    # changes its name, not its meaning (the item behind either name is validated by its own rules)
-    return _HELPER.sub(lambda m: m.group(1), tokens)
+def equiv(a, assoc_a, b, assoc_b):
+    """token strings a, b are equal up to a consistent (bijective) renaming of the associated items of `impl E` they refer to:
+    a co-enabled feature may turn a private helper (`__MIN`, or whatever the derive calls it) into the user-visible item (`MIN`) - the
+    cross-reference changes its name, not its meaning (the item behind either name is validated by its own rules)"""
+    if a == b:
+        return True
+    ta, tb = _TOK.findall(a), _TOK.findall(b)
+    if len(ta) != len(tb):
+        return False
+    fwd, bwd = {}, {}
+    for x, y in zip(ta, tb):
+        if x == y and x not in fwd and y not in bwd:
+            continue
+        if x in assoc_a and y in assoc_b or (x in fwd or y in bwd):
+            if fwd.setdefault(x, y) != y or bwd.setdefault(y, x) != x:
+                return False
+            continue
+        return False
+    return True
 
 def own_items(mods_items, feature):
     """token strings of the items that belong to `feature` in one expanded module: {label: tokens}"""
     out = {}
+    assoc = {m['name'] for it in mods_items if it['kind'] == 'item' and it.get('key', '') == 'impl E' for m in it.get('members', [])}
     trait_key = {'FromStr': ':: core :: str :: FromStr for E', 'TryFrom': ':: core :: convert :: TryFrom <', 'Debug': ':: core :: fmt :: Debug for E'}
     for it in mods_items:
         if it['kind'] != 'item':
@@ -45,14 +61,14 @@ def own_items(mods_items, feature):
         if key == 'impl E':
             for m in it.get('members', []):
                 if m['name'] == feature:
-                    out['fn ' + feature] = _norm(m['tokens'])
+                    out['fn ' + feature] = m['tokens']
         if feature in trait_key and trait_key[feature] in key:
-            out[key] = _norm(it['tokens'])
+            out[key] = it['tokens']
         if feature in ('iter', 'names'):
             sname = 'EIter' if feature == 'iter' else 'ENames'
             if key == 'struct ' + sname or key.endswith('for ' + sname):
-                out[key] = _norm(it['tokens'])
-    return out
+                out[key] = it['tokens']
+    return out, assoc
 
 def non_interference(ctx, tier, seed):
     est, ex = runner.stage_expand(tier, seed)
@@ -68,13 +84,13 @@ def non_interference(ctx, tier, seed):
             its = ex['mods'].get(m['id'])
             if its is None:
                 continue
-            mine = own_items(its, feature)
+            mine, assoc = own_items(its, feature)
             if not mine:
                 ctx.error('non-interference: no item of %s found in %s' % (feature, m['id'])); continue
             if ref is None:
-                ref = (m, mine); continue
-            if mine != ref[1]:
-                k = next((k for k in sorted(set(mine) | set(ref[1])) if mine.get(k) != ref[1].get(k)), '?')
+                ref = (m, mine, assoc); continue
+            if set(mine) != set(ref[1]) or not all(equiv(ref[1][k], ref[2], mine[k], assoc) for k in mine):
+                k = next((k for k in sorted(set(mine) | set(ref[1])) if k not in mine or k not in ref[1] or not equiv(ref[1][k], ref[2], mine[k], assoc)), '?')
                 a, b = ref[1].get(k, ''), mine.get(k, '')
                 j = next((i for i in range(min(len(a), len(b))) if a[i] != b[i]), min(len(a), len(b)))
                 ctx.violation('non-interference', None, '%s(mode=%s)' % (feature, mode), 'the expansion of `%s` of %s(mode=%s) depends on which other features are enabled: %s vs %s on %s: ...%s... vs ...%s...' % (
